@@ -97,9 +97,14 @@ KERNELS = {
              'system) as a user package and as a standard-library package, for every subset of two user tags: the selected Go files and .inc.js files must be exactly the documented ones. Every tag of two characters over [a-z0-9.] '
              '(three in the thorough tier) is decided symbolically: satisfied iff it is js or gc. Plain observations on the real toolchain: command-line tags reach imported packages, cgo files are ignored, .inc.js files are included. '
              'go/build.Default is stubbed (ReleaseTags go1.1..go1.23).', 'DESIGN.md §4 C18'),
+ 'C17': kern('Kernel level only: the go/ssa interpreter runs the analysed call with SYMBOLIC MAP ITERATION ORDER (every range over a map is executed under every permutation of its entries, each permutation a solver-enumerated path). '
+             'analysis.EscapingObjects on a parsed and type-checked function (go/parser and go/types run inside the interpreter) must report the escaping variables in syntax order under every permutation (this is what identifier '
+             'allocation depends on); dce.Info.getDeps must return the sorted list for every subset of 5 dependencies and every order; sources.Sources.Sort must give descending name order for every permutation of 4 files. '
+             'Whole-compiler determinism (go/types, translator state) is not encodable: it is only observed by repeated builds in fresh processes (GOMAXPROCS varied, files listed in both orders, with and without -m) compared byte for byte. '
+             'Sites without a harness are listed in the evidence.', 'DESIGN.md §4 C17'),
 }
 NA_DEFAULT = 'check not built yet in this session (work in progress; see DESIGN.md §8)'
-NA = {}
+NA = {'C12': 'the overlay merge (build.augment*, pruneImports, finalizeRemovals) rewrites go/ast trees produced by go/parser and matches directives with regular expressions; the symbolic input would have to be whole parsed files, and a concrete enumeration of declaration-shape pairs would be testing, not solving; only name equality could be solver-quantified. Not claimed (DESIGN.md section E); the real overlay merge of math, math/bits, unicode and sync/atomic is exercised by every C13 run.'}
 KERNEL_ALSO = ['C05', 'C10', 'C14', 'C16']       # properties whose check combines the jsx corpus with gosym kernels
 
 def main():
